@@ -255,6 +255,7 @@ impl Hx {
                 Item::Obs(o) => hx.obs.push((s, o.clone())),
                 Item::Phase(p) => hx.phases.push((s, p.clone())),
                 Item::FinalPut { key, st } => hx.final_puts.push((*key, *st)),
+                Item::WeightAfterAck { .. } => {}
             }
         }
         for ((t, i), (op, inv, _)) in open {
